@@ -453,6 +453,10 @@ func RunProperty(cfg RunConfig) int {
 		dir := filepath.Join(cfg.VerifDir, "replays")
 		_ = os.MkdirAll(dir, 0o755)
 		replayPath = filepath.Join(dir, fmt.Sprintf("%s-%d-%d.json", cfg.Prop, firstVJob.seed, firstV.Batch))
+		if os.Getenv("VERIF_EVIDENCE_DIR") != "" {
+			// a drill against a scratch tree may run next to another one: keep their files apart
+			replayPath = filepath.Join(dir, fmt.Sprintf("%s-%d-%d.drill%d.json", cfg.Prop, firstVJob.seed, firstV.Batch, os.Getpid()))
+		}
 		rf := ReplayFile{Property: cfg.Prop, Clause: v.Clause, Detail: v.Detail, VerifSeed: firstVJob.seed, Batch: firstV.Batch, RapidSeed: firstV.RapidSeed, RepoRev: cfg.RepoRev, Scenario: v.Scenario}
 		b, _ := json.MarshalIndent(rf, "", " ")
 		if err := os.WriteFile(replayPath, b, 0o644); err != nil {
